@@ -9,6 +9,7 @@ from props.C02 import fc_frame
 class C08(PropBase):
     id = 'C08'
     partial_passes = 0.25
+    rx_only_passes = 0.4
     lean_modules = ['Isotp.Props.C08']
     agree = []
     theorems = []
@@ -35,22 +36,36 @@ class C08(PropBase):
         pre = gen.prefix_len(a, 'tx')
         c = txdl - 1 - pre
         ncf = rng.choice([2, 3, 5, 9, 17])
+        big = rng.random() < 0.01
+        if big:
+            # far more frames than any per-call cap a developer might think of: with a zero separation time they all leave in ONE pass
+            ncf = rng.choice([4200, 5714])
+            if ovr not in (None, 0):
+                ovr = params['override_receiver_stmin'] = 0
         n = (txdl - 2 - pre) + c * ncf - rng.randrange(0, c)
         ops.append({'op': 'send', 'i': 0, 'id': 1, 'data': gen.rand_payload(rng, n)})
         ops.append({'op': 'process', 'i': 0})
         C08.counter += 1
         b = gen.VALID_STMIN[(C08.counter * 7 + rng.randrange(3)) % len(gen.VALID_STMIN)]
         bs = rng.choice([0, 0, 1, 3])
+        if big:
+            bs = 0
+            if ovr is None:
+                b = 0
         st = ref.stmin_ns(b)
         eff = st if ovr is None else int(ovr * 1e9)
         cur_b = b
         sent_fc = 0
-        for k in range(ncf * 4 + 8):
+        for k in range(min(ncf, 20) * 4 + 8):
             r = rng.random()
             if k == 0 or (bs and r < 0.3) or r < 0.08:
                 if r < 0.2 and k > 0:
                     cur_b = rng.choice(gen.VALID_STMIN)
                     eff = ref.stmin_ns(cur_b) if ovr is None else int(ovr * 1e9)
+                if rng.random() < 0.2 and not big:
+                    # a ContinueToSend immediately corrected by a second one (both waiting on the bus when the layer reads): the later one counts
+                    fid, ext, data = fc_frame(a, bs, rng.choice(gen.VALID_STMIN))
+                    ops.append({'op': 'frame', 'i': 0, 'id': fid, 'ext': ext, 'data': data})
                 fid, ext, data = fc_frame(a, bs, cur_b)
                 ops.append({'op': 'frame', 'i': 0, 'id': fid, 'ext': ext, 'data': data})
                 sent_fc += 1
@@ -98,6 +113,13 @@ class C08(PropBase):
                         if last_cf_t is not None and need is not None and e['t'] - last_cf_t < need:
                             out.append(('gap', 'Consecutive Frames %d ns apart, STmin in force is %d ns' % (e['t'] - last_cf_t, need)))
                         last_cf_t = e['t']
+            if r.op == 'process' and r.toks[3:4] == ['1'] and r.status.get('tx') == '2' and not out:
+                need = req if ovr is None else int(ovr * 1e9)
+                if need == 0:
+                    # "with a zero separation time frames are not delayed at all": a transmitting pass may not end with Consecutive Frames
+                    # of the current block still to be sent (no rate limiter in these scenarios)
+                    out.append(('zero_delay', 'separation time in force is 0 but the transmitting pass at op %d ended with Consecutive Frames '
+                                'still held back (%d handed over in this pass)' % (r.k, sum(1 for e in r.events if e['k'] == 'tx'))))
         return out[:3]
 
     def nontrivial_key(self, sc, lines_in, impl_out):
